@@ -27,6 +27,8 @@ func SendServiceUsageRequest(
 	if err != nil {
 		return nil, err
 	}
+	// the connection serves this request only
+	defer conn.Close()
 
 	meta, ok := smpeer.FromContext(conn.Context())
 	if !ok {
